@@ -973,3 +973,320 @@ def size_session(rng, n, version, fmt, nparts=2, stride=1, tmpdir=None):
                     pos += k
         run(f"laspy.open(mode='w'), {len(sizes)} write_points calls: {label} {sizes if len(sizes) <= 6 else str(sizes[:3])[:-1] + ', ...]'}", chunked)
     return {"desc": desc, "files": files, "count_field": (247, 8) if h.version.minor >= 4 else (107, 4), "n": n}
+
+
+# =====================================================================================================================
+# round 6 (added; nothing above is changed): the REPRESENTATION of a chunk (contiguous / strided views of every step and
+# sign, after one another and of shrinking size / read-only memory / 0-d), scale-aware chunks whose scaling differs from the
+# writer's by EVERY order of magnitude (one ulp, relative 1e-9 .. 1e-6, metres at UTM magnitudes, signed zeros, one axis,
+# everything) and FAULTS in the middle of a writer operation (write_evlrs failing after k bytes of the EVLR section because the
+# destination raises or an EVLR description cannot be encoded; write_points refused by the destination with nothing stored)
+# followed by continued use of the writer. Model: Model/WriterFault.v (`fsess` of bin/lasmodel_c04).
+# =====================================================================================================================
+class FaultyDest(KeepBytesIO):
+    """BytesIO destination that can be armed: a write that would go beyond the absolute position `limit` raises OSError and
+    stores nothing of that write"""
+
+    def __init__(self, initial=b""):
+        super().__init__(initial)
+        self.limit = None
+        self.faults = 0
+
+    def arm(self, limit):
+        self.limit = limit
+
+    def disarm(self):
+        self.limit = None
+
+    def write(self, b):
+        if self.limit is not None and self.tell() + memoryview(b).nbytes > self.limit:
+            self.faults += 1
+            raise OSError("no space left on device (harness)")
+        return super().write(b)
+
+
+REPRS = ["plain", "plain", "strided 2", "strided 2", "strided 3", "strided -1", "strided -2", "strided a:b:k", "read-only", "copy by index list"]
+
+
+def with_representation(rng, rec, how):
+    """the SAME records (same class, same format object, same scaling) in another memory representation"""
+    import laspy
+    n = len(rec)
+    arr = rec.array
+    if arr.ndim == 0 or n == 0 or how == "plain":
+        return rec, "plain"
+    if how.startswith("strided"):
+        spec = how.split(" ")[1]
+        lead = 0
+        if spec == "a:b:k":
+            k, lead = rng.choice([2, 3, 5]), rng.choice([1, 2, 4])
+        else:
+            k = int(spec)
+        total = lead + n * abs(k) + (rng.choice([0, 1]) if k > 0 else 0)
+        junk = np.frombuffer(bytes(rng.getrandbits(8) for _ in range(total * arr.dtype.itemsize)), dtype=np.uint8).copy()
+        big = junk.view(arr.dtype)
+        view = big[lead:lead + n * abs(k):k] if k > 0 else big[lead:lead + n * abs(k)][::k]
+        view = view[:n]
+        view[...] = arr
+        new = view
+        label = f"records[{lead}:{lead + n * abs(k)}:{k}] of an array of {total} (a non-contiguous view)"
+    elif how == "read-only":
+        new = np.frombuffer(np.ascontiguousarray(arr).tobytes(), dtype=arr.dtype)
+        label = "read-only memory (np.frombuffer of bytes)"
+    else:
+        big = np.concatenate([arr, arr])
+        new = big[[i for i in range(n)]]
+        label = "copy made by an index list"
+    if hasattr(rec, "scales"):
+        return laspy.ScaleAwarePointRecord(new, rec.point_format, rec.scales, rec.offsets), label
+    return laspy.PackedPointRecord(new, rec.point_format), label
+
+
+SCALING_DIFFS = ["equal copy", "one ulp", "signed zero", "relative 1e-9", "relative 1e-7", "relative 5e-6 on everything", "metres at UTM magnitude",
+                 "one axis by 1.0", "offsets by -2.0, scales doubled", "scales halved", "one scale by relative 1e-6"]
+
+
+def differing_scaling(rng, h, how):
+    """(scales, offsets) for a ScaleAwarePointRecord that is to be written into a writer of header h: EQUAL, or different from
+    the header's by the given order of magnitude"""
+    s = np.array(h.scales, dtype=np.float64).copy()
+    o = np.array(h.offsets, dtype=np.float64).copy()
+    i = rng.randrange(3)
+    if how == "one ulp":
+        if rng.random() < 0.5:
+            o[i] = np.nextafter(o[i], rng.choice([-np.inf, np.inf]))
+        else:
+            s[i] = np.nextafter(s[i], np.inf)
+    elif how == "signed zero":
+        for k in range(3):
+            if o[k] == 0.0:
+                o[k] = -0.0
+    elif how.startswith("relative 1e-9") or how.startswith("relative 1e-7"):
+        r = 1e-9 if "1e-9" in how else 1e-7
+        for k in range(3):
+            if rng.random() < 0.7 or k == i:
+                o[k] = o[k] * (1.0 + r * rng.choice([-1, 1])) if o[k] != 0.0 else r * 0.05
+    elif how == "relative 5e-6 on everything":
+        for k in range(3):
+            o[k] = o[k] * (1.0 + 5e-6 * rng.choice([-1, 1])) if o[k] != 0.0 else 5e-9 * rng.choice([-1, 1])
+            s[k] = s[k] * (1.0 + 5e-6 * rng.choice([-1, 1]))
+    elif how == "metres at UTM magnitude":
+        for k in range(3):
+            if abs(o[k]) >= 2e5:
+                o[k] = o[k] + rng.choice([2.5, -3.0, 10.0, 1.0]) * (abs(o[k]) / 1e6 if abs(o[k]) > 1e6 else 1.0)
+            elif k == i:
+                o[k] = o[k] + 5e-9
+    elif how == "one axis by 1.0":
+        o[i] += 1.0
+    elif how == "offsets by -2.0, scales doubled":
+        o = o - 2.0
+        s = s * 2.0
+    elif how == "scales halved":
+        s = s * 0.5
+    elif how == "one scale by relative 1e-6":
+        s[i] = s[i] * (1.0 + 1e-6)
+    return s, o
+
+
+def in_writers_system(rec, h):
+    """the bytes of a scale-aware chunk once its points are expressed in the scaling of header h (laspy's own public
+    ScaleAwarePointRecord.change_scaling, applied to a private copy); None when the coordinates do not fit"""
+    import laspy
+    if not (np.any(np.asarray(rec.scales) != np.asarray(h.scales)) or np.any(np.asarray(rec.offsets) != np.asarray(h.offsets))):
+        return lasio.rec_bytes(rec)
+    c = laspy.ScaleAwarePointRecord(np.atleast_1d(np.ascontiguousarray(rec.array)).copy(), rec.point_format, np.array(rec.scales), np.array(rec.offsets))
+    try:
+        c.change_scaling(scales=np.array(h.scales), offsets=np.array(h.offsets))
+    except OverflowError:
+        return None
+    return lasio.rec_bytes(c)
+
+
+def evlr_piece_sizes(evl):
+    """sizes of the successive destination writes of VLRList.write_to(as_extended=True): the unit in which a failing
+    destination tears the EVLR section"""
+    out = []
+    for v in evl:
+        out += [2, 16, 2, 8, 32, len(v.record_data_bytes())]
+    return out
+
+
+def gen_r6_session(rng, thorough=False):
+    """a writer session over the op kinds of gen_writer_session PLUS: chunks in every memory representation, scale-aware chunks
+    whose scaling differs from the writer's by every order of magnitude, write_evlrs failing after k bytes (destination fault
+    or an EVLR description the strict codec refuses), write_points refused by the destination with nothing stored.
+    ops: ('P', rec, same, info) | ('PF', rec, True, info) | ('E', evl) | ('EF', evl, fault) | ('C',) | ('CF',)"""
+    import laspy
+    v = rng.choice(lasio.VERSIONS + ["1.4", "1.4"])
+    h = lasio.rand_header(rng, version=v)
+    if rng.random() < 0.25:
+        lasio.add_extra_dims(rng, h)
+    if rng.random() < 0.5:
+        sc = rng.choice([0.001, 0.01])
+        h.scales = np.array([sc, sc, rng.choice([sc, 0.001])])
+        h.offsets = np.array([rng.choice([500000.0, 431000.0, 699999.5]), rng.choice([4000000.0, 5412345.0, 9300000.25]), rng.choice([0.0, 100.0, 1500.5])])
+    ops = []
+    nops = rng.randrange(2, 8 if not thorough else 13)
+    finished = False
+    strided_bias = rng.random() < 0.5          # sessions made mostly of strided chunks (of every size after one another)
+    for _ in range(nops):
+        r = rng.random()
+        if finished and 0.70 <= r < 0.9:
+            r = 0.3
+        if r < 0.62:
+            n = rng.choice([0, 1, 2, 3, 5, 9, 17, 40])
+            rec = lasio.rand_points(rng, h, n)
+            info = {"records": n}
+            if n and rng.random() < 0.45:
+                how = rng.choice(SCALING_DIFFS)
+                small = lasio.rand_points(rng, h, n, pattern="small")
+                for kx in "XYZ":
+                    small.array[kx] = np.array([rng.randrange(-50000, 50000) for _ in range(n)], dtype=np.int32)
+                s, o = differing_scaling(rng, h, how)
+                rec = laspy.ScaleAwarePointRecord(small.array, small.point_format, s, o)
+                info.update(kind="ScaleAwarePointRecord", scaling=how, scales=[float(x) for x in s], offsets=[float(x) for x in o])
+                if n == 1 and rng.random() < 0.4:
+                    rec = rec[0]        # one point of a scale-aware record (points[i]): a 0-d record that carries its scaling
+                    info["as"] = "0-d record"
+            elif n == 1 and rng.random() < 0.3:
+                rec = rec[0]
+                info["as"] = "0-d record"
+            rep = rng.choice(REPRS[2:8]) if (strided_bias and rng.random() < 0.8) else rng.choice(REPRS)
+            if rep == "read-only" and "scaling" in info:
+                rep = "plain"        # re-expressing a chunk needs its memory to be writable (it is restored afterwards)
+            rec, info["representation"] = with_representation(rng, rec, rep)
+            if n and not finished and rng.random() < 0.08:
+                ops.append(("PF", rec, True, info))
+            else:
+                ops.append(("P", rec, True, info))
+        elif r < 0.70:
+            n = rng.choice([0, 1, 3])
+            ops.append(("P", wrong_format_points(rng, h, n), False, {"records": n, "foreign": True}))
+        elif r < 0.9:
+            evl = laspy.vlrs.vlrlist.VLRList([lasio.rand_vlr(rng, 80) for _ in range(rng.choice([0, 1, 2, 3]))])
+            if len(evl) and h.version.minor >= 4 and rng.random() < 0.55:
+                if rng.random() < 0.5:
+                    j = rng.randrange(len(evl))
+                    evl[j] = laspy.VLR(user_id=evl[j].user_id, record_id=evl[j].record_id, description=rng.choice(["café", "über", "m² – area"]),
+                                       record_data=evl[j].record_data)
+                    k = sum(60 + len(x.record_data_bytes()) for x in evl[:j]) + 28
+                    fault = {"why": f"the description of EVLR {j} is not ASCII (strict codec)", "evlr": j, "stored": k}
+                else:
+                    pieces = evlr_piece_sizes(evl)
+                    budget = rng.randrange(2, sum(pieces))
+                    k = 0
+                    for p in pieces:
+                        if k + p > budget:
+                            break
+                        k += p
+                    fault = {"why": f"the destination raises OSError once more than {budget} bytes of the EVLR section are written", "budget": budget, "stored": k}
+                ops.append(("EF", evl, fault))
+                finished = True
+            else:
+                ops.append(("E", evl))
+                finished = finished or (len(evl) > 0 and h.version.minor >= 4)
+        else:
+            ops.append(("CF",) if rng.random() < 0.35 else ("C",))      # CF: the destination refuses the header rewrite of this close()
+            finished = True
+    ops.append(("C",))
+    return {"header": h, "ops": ops, "entry": rng.choice(["class", "open"])}
+
+
+def _rec_snap(rec):
+    return (lasio.rec_bytes(rec), id(rec.array), rec.array.__array_interface__["data"][0], rec.array.strides, bool(rec.array.flags.writeable),
+            id(rec.point_format), tuple(lasio.f64bits(x) for x in getattr(rec, "scales", [])), tuple(lasio.f64bits(x) for x in getattr(rec, "offsets", [])))
+
+
+def run_r6_session(sess):
+    """executes a gen_r6_session on laspy. Returns dict(outs, raw, unchanged, grown (bytes the destination grew by per op), problems)"""
+    import laspy
+    h = sess["header"]
+    dest = FaultyDest()
+    res = {"outs": [], "unchanged": [], "grown": [], "problems": [], "raw": None}
+    try:
+        w = laspy.open(dest, mode="w", header=h, closefd=False) if sess["entry"] == "open" else laspy.LasWriter(dest, h, closefd=False)
+    except Exception as ex:
+        res["outs"] = ["open-err:" + common.exc_kind(ex)]
+        return res
+    for op in sess["ops"]:
+        before = dest.value()
+        snap = _rec_snap(op[1]) if op[0] in ("P", "PF") and len(op[1]) else None
+        try:
+            if op[0] == "P":
+                w.write_points(op[1])
+            elif op[0] == "PF":
+                dest.arm(len(before) + rng_free_cut(len(op[1]) * h.point_format.size, len(before)))
+                try:
+                    w.write_points(op[1])
+                finally:
+                    dest.disarm()
+            elif op[0] == "E":
+                w.write_evlrs(op[1])
+            elif op[0] == "EF":
+                if "budget" in op[2]:
+                    dest.arm(dest.tell() + op[2]["budget"])
+                try:
+                    w.write_evlrs(op[1])
+                finally:
+                    dest.disarm()
+            elif op[0] == "CF":
+                dest.arm(0)
+                try:
+                    w.close()
+                finally:
+                    dest.disarm()
+            else:
+                w.close()
+            res["outs"].append("ok")
+        except Exception as ex:
+            res["outs"].append("err:" + common.exc_kind(ex))
+        after = dest.value()
+        res["unchanged"].append(before == after)
+        res["grown"].append(len(after) - len(before))
+        if snap is not None and _rec_snap(op[1]) != snap:
+            res["problems"].append(("write_points modified the chunk it was given", op))
+    res["raw"] = dest.value()
+    return res
+
+
+def rng_free_cut(nbytes, pos):
+    """where the destination starts refusing, inside the bytes of the chunk (deterministic in the sizes: no random stream used at run time)"""
+    return (pos * 7 + nbytes // 2) % max(1, nbytes)
+
+
+def r6_model_cmd(sess):
+    """`fsess` command of bin/lasmodel_c04 for a gen_r6_session, or None when a scale-aware chunk does not fit the writer's scaling
+    (an OverflowError refusal: C11's rule, oracle only)"""
+    h = sess["header"]
+    toks = []
+    hs = [lasio.f64bits(x) for x in h.scales] + [lasio.f64bits(x) for x in h.offsets]
+    for op in sess["ops"]:
+        if op[0] in ("P", "PF"):
+            rec = op[1]
+            same = lasio.format_key(rec.point_format) == lasio.format_key(h.point_format)
+            if not same:
+                toks.append("PF" + common.hexb(bytes(len(rec) * h.point_format.size)))
+            elif hasattr(rec, "scales") and len(rec):
+                resc = in_writers_system(rec, h)
+                if resc is None:
+                    return None
+                cs = [lasio.f64bits(x) for x in rec.scales] + [lasio.f64bits(x) for x in rec.offsets]
+                # what the model is given for "re-expressed": laspy's change_scaling of a copy, forced (also when the scalings are equal)
+                toks.append(("Q" if op[0] == "PF" else "S") + common.zl(cs) + ":" + common.hexb(lasio.rec_bytes(rec)) + ":" + common.hexb(resc))
+            else:
+                toks.append(("QT" if op[0] == "PF" else "PT") + common.hexb(lasio.rec_bytes(rec)))
+        elif op[0] == "E":
+            toks.append("E" + lasio.vlrs_tok(op[1]))
+        elif op[0] == "EF":
+            tl = []
+            for j, v in enumerate(op[1]):
+                if op[2].get("evlr") == j:
+                    tl.append((lasio.sbytes(v.user_id), int(v.record_id), b"", bytes(v.record_data_bytes())))
+                else:
+                    tl.append(lasio.vlr_tuple(v))
+            toks.append(f"X{op[2]['stored']}:" + lasio.vlrs_tok(tl))
+        elif op[0] == "CF":
+            toks.append("Z")
+        else:
+            toks.append("C")
+    return f"fsess {lasio.assoc_tok(lasio.header_assoc(h))} {lasio.vlrs_tok(h.vlrs)} {h.point_format.id} {h.point_format.size} " + " ".join(toks)
